@@ -25,14 +25,14 @@ import time
 
 import z3
 
-from .runner import VERIF, REPO, WORK, sh, load_known
+from .runner import VERIF, REPO, WORK, sh, load_known, copy_lock
 
 TRAITS = ['Debug', 'Clone', 'Copy', 'PartialEq', 'Eq', 'PartialOrd', 'Ord', 'Hash', 'Default']
 TPATH = {'Debug': '::core::fmt::Debug', 'Clone': '::core::clone::Clone', 'Copy': '::core::marker::Copy', 'PartialEq': '::core::cmp::PartialEq',
          'Eq': '::core::cmp::Eq', 'PartialOrd': '::core::cmp::PartialOrd', 'Ord': '::core::cmp::Ord', 'Hash': '::core::hash::Hash',
-         'Default': '::core::default::Default', 'IntoU8': '::core::convert::Into<u8>', 'Marker': 'Marker'}
+         'Default': '::core::default::Default', 'IntoU8': '::core::convert::Into<u8>', 'IntoU16': '::core::convert::Into<u16>', 'Marker': 'Marker'}
 SUPER = {'Copy': ['Clone'], 'Eq': ['PartialEq'], 'PartialOrd': ['PartialEq'], 'Ord': ['Eq', 'PartialOrd']}
-ALLT = TRAITS + ['IntoU8', 'Marker']
+ALLT = TRAITS + ['IntoU8', 'IntoU16', 'Marker']
 
 
 # ------------------------------------------------------------------ type terms
@@ -126,6 +126,8 @@ def trait_key(bound):
         return m.group(4)
     if b in ('Into<u8>', '::core::convert::Into<u8>', 'core::convert::Into<u8>'):
         return 'IntoU8'
+    if b in ('Into<u16>', '::core::convert::Into<u16>', 'core::convert::Into<u16>'):
+        return 'IntoU16'
     return None
 
 
@@ -159,12 +161,12 @@ class Enc:
         if tr == 'Marker':
             return z3.BoolVal(False)
         if k == 'u8':
-            return z3.BoolVal(True)
+            return z3.BoolVal(True)      # u8: the nine traits, Into<u8> and Into<u16>
         if k == 'ltph':
-            return z3.BoolVal(tr != 'IntoU8')
+            return z3.BoolVal(tr not in ('IntoU8', 'IntoU16'))
         if k == 'noimpl':
             return z3.BoolVal(False)
-        if tr == 'IntoU8':
+        if tr in ('IntoU8', 'IntoU16'):
             return z3.BoolVal(False)
         if k == 'phantom':
             return z3.BoolVal(True)
@@ -239,9 +241,9 @@ class Req:
             elif role == 'expr':
                 items.append('Default(expression = anyv())')
             elif role == 'into':
-                items.append('Into(u8)')
+                items.append('Into(u8)' if tr == 'Into' else 'Into(u16)')
             elif role == 'intom':
-                items.append('Into(u8, method(any_into))')
+                items.append('Into(u8, method(any_into))' if tr == 'Into' else 'Into(u16, method(any_into16))')
             elif role == 'marker':
                 items.append(tr)
         return f'#[educe({", ".join(items)})] ' if items else ''
@@ -249,8 +251,8 @@ class Req:
     def source(self, name='Ty', with_derive=True):
         items = []
         for tr, mode in self.traits:
-            if tr == 'Into':
-                s = 'Into(u8'
+            if tr in ('Into', 'Into16'):
+                s = 'Into(u8' if tr == 'Into' else 'Into(u16'
                 if mode is not None:
                     s += ', ' + bound_text(mode)
                 items.append(s + ')')
@@ -346,17 +348,18 @@ def F_formula(enc, req, tr, mode, educed, Wmap):
     conj = []
     # inline bounds and the user's where-clause are part of every impl header
     conj += header_constraints(enc, req)
-    if tr == 'Into':
+    if tr in ('Into', 'Into16'):
         # only the chosen field, and only if it needs conversion
+        key = 'IntoU8' if tr == 'Into' else 'IntoU16'
         if mode is None:
             for vn, vk, fs, dm in req.variants:
-                ch = [f for f in fs if f.roles.get('Into') in ('into', 'intom')] or (fs if len(fs) == 1 else [f for f in fs if f.term == U8])
+                ch = [f for f in fs if f.roles.get(tr) in ('into', 'intom')] or (fs if len(fs) == 1 else [f for f in fs if f.term == U8 and tr == 'Into'])
                 for f in ch[:1]:
-                    if f.roles.get('Into') == 'intom' or f.term == U8:
+                    if f.roles.get(tr) == 'intom' or (f.term == U8 and tr == 'Into'):
                         continue
-                    conj.append(enc.holds(f.term, 'IntoU8'))
+                    conj.append(enc.holds(f.term, key))
         else:
-            conj += mode_constraints(enc, req, 'IntoU8', mode)
+            conj += mode_constraints(enc, req, key, mode)
         return z3.And(conj) if conj else z3.BoolVal(True)
     if tr in ('Deref', 'DerefMut'):
         return z3.And(conj) if conj else z3.BoolVal(True)
@@ -588,6 +591,11 @@ def c11_corpus(tier, seed):
     add('struct', tparams(['T']), [('S', 'tuple', [Field(T)], False)], [('Into', None)])
     add('struct', tparams(['T', 'U']), [('S', 'named', [Field(T, Into='intom'), Field(U)], False)], [('Into', None)])
     add('enum', tparams(['T', 'U']), [('A', 'tuple', [Field(T, Into='into'), Field(U)], False), ('B', 'named', [Field(U8), Field(U)], False)], [('Into', None)])
+    # several Into targets on one type: each impl is constrained by its own chosen field only
+    add('struct', tparams(['T', 'U']), [('S', 'named', [Field(T, Into='into'), Field(U, Into16='into')], False)], [('Into', None), ('Into16', None)])
+    add('struct', tparams(['T']), [('S', 'tuple', [Field(T, Into='into', Into16='into')], False)], [('Into', None), ('Into16', None)])
+    add('struct', tparams(['T', 'U']), [('S', 'named', [Field(T, Into='intom'), Field(U, Into16='into')], False)], [('Into16', None), ('Into', None)])
+    add('enum', tparams(['T', 'U']), [('A', 'tuple', [Field(T, Into='into', Into16='into'), Field(U)], False), ('B', 'named', [Field(U, Into='into', Into16='intom'), Field(T)], False)], [('Into', None), ('Into16', None)])
     # Deref / DerefMut: never constrained
     add('struct', tparams(['T', 'U']), [('S', 'named', [Field(T, Deref='marker', DerefMut='marker'), Field(U)], False)], [('Deref', None), ('DerefMut', None)])
     # several traits at once on one request (each trait has its own delegation)
@@ -658,6 +666,12 @@ def c12_corpus(tier, seed):
         add('struct', [('type', 'T', None, None), ('type', 'U', None, None)], [('S', 'named', [Field(T, Into='into'), Field(U)], False)], [('Into', m)])
     for m in [False, ('empty', ''), ('liststr', 'U: ::core::clone::Clone')]:
         add('struct', [('type', 'T', None, None), ('type', 'U', None, None)], [('S', 'named', [Field(T, Into='intom'), Field(U)], False)], [('Into', m)])
+    # per-target bounds with two targets: the predicates given for one target must not reach the other impl
+    TU = [('type', 'T', None, None), ('type', 'U', None, None)]
+    add('struct', TU, [('S', 'named', [Field(T, Into='into'), Field(U, Into16='into')], False)], [('Into', ('list', 'T: ::core::convert::Into<u8>')), ('Into16', ('str', 'U: ::core::convert::Into<u16>'))])
+    add('struct', TU, [('S', 'named', [Field(T, Into='into'), Field(U, Into16='into')], False)], [('Into16', '*'), ('Into', ('list', 'T: ::core::convert::Into<u8>'))])
+    add('struct', TU, [('S', 'tuple', [Field(T, Into='into', Into16='into'), Field(PH(U))], False)], [('Into', None), ('Into16', ('list', 'T: ::core::convert::Into<u16>, U: ::core::clone::Clone'))])
+    add('enum', TU, [('A', 'tuple', [Field(T, Into='into', Into16='into'), Field(U)], False), ('B', 'named', [Field(T, Into='into', Into16='into')], False)], [('Into', ('list', 'T: ::core::convert::Into<u8>')), ('Into16', ('liststr', 'T: ::core::convert::Into<u16>'))])
     # auto mode on rich headers: header must still be reproduced
     for tr in ['Debug', 'Clone', 'PartialEq', 'Hash', 'Default']:
         add('struct', rich, [('S', 'named', [Field(T), Field(PH(U)), Field(U8)], False)], [(tr, None)], where='T: Marker2')
@@ -706,6 +720,7 @@ pub fn any_pcmp<T>(_a: &T, _b: &T) -> Option<Ordering> { None }
 pub fn any_cmp<T>(_a: &T, _b: &T) -> Ordering { Ordering::Equal }
 pub fn any_hash<T, H: core::hash::Hasher>(_v: &T, _h: &mut H) {}
 pub fn any_into<T>(_v: T) -> u8 { 0 }
+pub fn any_into16<T>(_v: T) -> u16 { 0 }
 pub fn anyv<T>() -> T { loop {} }
 macro_rules! impls {
     ($t:ty : $($tr:tt)+) => {{
@@ -744,6 +759,8 @@ def arg_type_decl(name, traits):
             s += f'impl Default for {name} {{ fn default() -> Self {{ {name} }} }}\n'
         elif t == 'IntoU8':
             s += f'impl Into<u8> for {name} {{ fn into(self) -> u8 {{ 0 }} }}\n'
+        elif t == 'IntoU16':
+            s += f'impl Into<u16> for {name} {{ fn into(self) -> u16 {{ 0 }} }}\n'
         elif t == 'Marker':
             s += f'impl Marker for {name} {{}}\nimpl Marker2 for {name} {{}}\n'
     return s
@@ -812,7 +829,7 @@ class Probe:
         shutil.rmtree(d, ignore_errors=True)
         os.makedirs(os.path.join(d, 'src'))
         open(os.path.join(d, 'Cargo.toml'), 'w').write(f'[package]\nname = "probe"\nversion = "0.0.0"\nedition = "2021"\n[dependencies]\neduce = {{ path = "{REPO}" }}\n[workspace]\n')
-        shutil.copy(os.path.join(REPO, 'Cargo.lock'), os.path.join(d, 'Cargo.lock'))
+        copy_lock(d)
         main = 'fn main() {\n' + ''.join(f'    println!("{{}}\\t{{}}", "{lab}", {ex});\n' for lab, ex in self.qs) + '}\n'
         open(os.path.join(d, 'src', 'main.rs'), 'w').write(PROBE_PRELUDE + self.decls + main)
         rc, out = sh(['cargo', 'run', '--quiet', '--offline', '--target-dir', os.path.join(WORK, 'target-native')], cwd=d,
@@ -878,6 +895,8 @@ def model_to_inst(enc, model):
 
 def educed_impl_trait(impl):
     t = norm(impl.get('trait') or '')
+    if t == '::core::convert::Into<u16>':
+        return 'Into16'
     if t.startswith('::core::convert::Into<'):
         return 'Into'
     for k, p in TPATH.items():
@@ -922,7 +941,7 @@ def main(prop, tier, seed, keep=False):
         # W of every emitted impl first (needed for Self: X atoms), in dependency order
         Wmap = {}
         for tr in ['PartialEq', 'Eq', 'Clone', 'Copy', 'PartialOrd', 'Ord', 'Debug', 'Hash', 'Default', 'Deref', 'DerefMut', 'Into']:
-            if tr in byt and tr != 'Into':
+            if tr in byt and tr not in ('Into', 'Into16'):
                 Wmap[tr] = W_formula(enc, req, byt[tr][0], Wmap, educed)
         req_nontrivial = True
         for tr, mode in req.traits:
@@ -981,7 +1000,7 @@ def main(prop, tier, seed, keep=False):
     for i, (req, tr, mode, inst, f_says) in enumerate(sat_cases[:12]):
         pr.add_req(req, f'v{i}')
         args = {p: pr.argtype(ts) for p, ts in inst.items()}
-        tpath = TPATH['IntoU8'] if tr == 'Into' else (TPATH.get(tr) or f'::core::ops::{tr}')
+        tpath = TPATH['IntoU8'] if tr == 'Into' else TPATH['IntoU16'] if tr == 'Into16' else (TPATH.get(tr) or f'::core::ops::{tr}')
         lab = f'sat:{i}'
         pr.ask(lab, f'v{i}::Ty{req.ty_args(args)}', tpath)
         asked.append((lab, i, f_says))
@@ -1002,7 +1021,7 @@ def main(prop, tier, seed, keep=False):
             inst = {p: sorted(close_super(ts)) for p, ts in inst.items()}
             args = {p: pr.argtype(ts) for p, ts in inst.items()}
             lab = f'val:{j}:{tr}'
-            tpath = TPATH['IntoU8'] if tr == 'Into' else TPATH[tr]
+            tpath = TPATH['IntoU8'] if tr == 'Into' else TPATH['IntoU16'] if tr == 'Into16' else TPATH[tr]
             pr.ask(lab, f'e{j}::Ty{req.ty_args(args)}', tpath)
             val_pairs.append((lab, req, tr, mode, inst))
     validated = 0
